@@ -348,9 +348,15 @@ func oracleFacts(repo string, emit func(name, leanDef string, err error)) {
 		"sort.Sort(b)", "if l%2 == 1", "return b[l/2]", "new(big.Int).Div(new(big.Int).Add(b[l/2], b[l/2-1]), big.NewInt(2))",
 	})
 	shape("oracleRecacheShape", "x/oracle/keeper/single.go", "recacheAggregatorContext", []string{
-		"from := ctx.BlockHeight() - int64(common.MaxNonce) + 1", "if int64(h.Block) >= from", "from = int64(h.Block) + 1",
+		"from := ctx.BlockHeight() - int64(k.GetParams(ctx).MaxNonce) + 1", "if int64(h.Block) >= from", "from = int64(h.Block) + 1",
 		"agc.PrepareRoundEndBlock(uint64(from - 1))", "agc.SealRound(ctxReplay, false)", "agc.PrepareRoundEndBlock(uint64(to - 1))",
 		"Creator: msg.Validator", "FeederID: msg.FeederID", "Prices: msg.PSources",
+		// the `from >= to` branch after the F-14c repair
+		"agc.PrepareRoundEndBlock(uint64(to - 2))", "agc.SealRound(ctx.WithBlockHeight(to-1), int64(h.Block) == to-1)",
+	})
+	// caches.go after the F-14d repair: no pruning while the chain is younger than MaxNonce
+	shape("oracleCacheCommitShape", "x/oracle/keeper/cache/caches.go", "cacheMsgs.commit", []string{
+		"if block > uint64(common.MaxNonce)", "oldest = block - uint64(common.MaxNonce)", "if b > oldest",
 	})
 	shape("oracleTimestampShape", "x/oracle/keeper/msg_server_create_price.go", "checkTimestamp", []string{
 		"if len(ts) == 0", "if now.Add(maxFutureOffset).Before(t)",
